@@ -38,9 +38,13 @@ PROP = {
         "Sonic.Props.C03.C03_poll_result",
         "Sonic.Props.C03.C03_eintr_not_an_error",
         "Sonic.Model.Loop.step_acct",
+        "Sonic.Props.C03.C03_ledger_accepts_model",
+        "Sonic.Props.C03.C03_pending_is_operations_in_flight",
+        "Sonic.Props.C03.C03_owed_is_registered",
+        "Sonic.Model.Loop.step_sim",
     ],
     "runs": LOOP_RUNS,
-    "keys": ["pending-differs-from-ledger", "posted-differs-from-ledger", "poll-*"],
+    "keys": ["pending-differs-from-ledger", "posted-differs-from-ledger", "poll-*", "ledger-pending-differs-from-operations-in-flight"],
     "rule": LOOP_RULE,
     "trusted_base": LOOP_TB,
     "assumptions": [
@@ -57,13 +61,18 @@ PROP = {
                       "interests + queued posts + running posted handlers in every reachable state (step_acct over all 17 transition "
                       "kinds incl. failing/absent registrations, cancel, close, timers, posts); hence Pending() is exact when no handler "
                       "runs, RunPending's loop exits iff nothing is in flight, a poll that dispatched reports a positive count, and "
-                      "EINTR never maps to an error. The link from interest bits to the API-level ledger (operations in flight) is "
-                      "carried by the correspondence check: the real loop's traces must be accepted both by the model and by the "
-                      "ledger monitor, which compares every top-level Pending()/Posted() with its own count.",
+                      "EINTR never maps to an error. The link from interest bits to the API-level ledger is proved too (Props/Ledger.lean, "
+                      "step_sim: a coupling between model states and states of `Sonic.Spec.Ledger`, a shadow ledger that sees only calls, "
+                      "callback entries and returns): for every history of the model that respects the documented usage (one operation "
+                      "per direction and object in flight), every Pending()/Posted() reported while no handler executes equals the number "
+                      "of operations / posted handlers the ledger owes — nothing counted that completed inline, was cancelled, was "
+                      "closed, or failed to register (C03_pending_is_operations_in_flight, C03_ledger_accepts_model). The real loop's "
+                      "traces must be accepted by the model, by that ledger and by the trace monitor (which also drives RunOne / "
+                      "RunPending and interrupts waits with signals).",
         "design_ref": "5/C03",
         "level_note": "Trusted: Lean kernel; hand-written loop model tied to the code by trace acceptance; kernel behaviour read off the "
-                      "trace. Not proven: the refinement from the model's interest bits to the monitor's ledger; signal interruption "
-                      "of a real wait.",
+                      "trace. Not proven: that RunPending / RunOne return (liveness needs the kernel to report readiness); the failing-"
+                      "registration paths are modelled for descriptors epoll refuses at EPOLL_CTL_ADD only.",
         "technique": "Lean 4 invariant proof over a loop-model LTS + trace acceptance (model and ledger monitor) on the real event loop",
     },
 }
